@@ -643,7 +643,7 @@ class definition(slots_getstate_setstate):
 
     def assign_attribute(self, name, words, converter_registry, converter_cache):
         assert self.has_attribute_with_name(name)
-        if name in ["optional", "multiple"]:
+        if name in ["optional", "multiple", "deprecated"]:
             value = bool_from_words(words=words, path="." + name)
         elif name == "type":
             value = definition_converters_from_words(
